@@ -136,6 +136,42 @@ pub fn counting(ctx: &mut Ctx) {
                 ctx.oracle_failure(serde_json::json!({"kind":"impl_violates_property","what":"superminhasher::compute_superminhash_jaccard<f32> (near ties): not count/len","got":txt,"want":f32hx(t32),"n":n}));
             }
         }
+        // ALIASED arguments: the two slices are views of ONE buffer - a prefix of it (unequal lengths: must be reported), the
+        // buffer twice (1), two overlapping windows (count/len as usual). Identity or pointer shortcuts show only here.
+        if c % 4 == 1 && n >= 2 {
+            ctx.count("aliased arguments (views of one buffer)");
+            let buf: Vec<u64> = a.iter().cloned().chain(std::iter::once(a[0])).collect();           // n + 1 values
+            let buff: Vec<f64> = buf.iter().map(|x| *x as f64 + 0.25).collect();
+            let k = 1 + (c as usize % (n - 1).max(1));
+            // (1) prefix of the same buffer, both argument orders: unequal lengths
+            for flip in [false, true] {
+                let (x, y): (&[u64], &[u64]) = if flip { (&buf[..k], &buf[..n]) } else { (&buf[..n], &buf[..k]) };
+                let (xf, yf): (&[f64], &[f64]) = if flip { (&buff[..k], &buff[..n]) } else { (&buff[..n], &buff[..k]) };
+                if x.len() == y.len() { continue; }
+                let rs: Vec<(&str, bool, Result<Result<String, String>, String>)> = vec![
+                    ("jaccard::compute_probminhash_jaccard (prefix of the same buffer)", true, catch(|| Ok::<String, String>(fhx(jaccard::compute_probminhash_jaccard(x, y))))),
+                    ("jaccard::get_jaccard_index_estimate (prefix of the same buffer)", true, catch(|| jaccard::get_jaccard_index_estimate(xf, yf).map(fhx).map_err(|e| e.to_string()))),
+                    ("superminhasher::compute_superminhash_jaccard (prefix of the same buffer)", false, catch(|| superminhasher::compute_superminhash_jaccard(xf, yf).map(fhx).map_err(|e| e.to_string()))),
+                    ("superminhasher::get_jaccard_index_estimate (prefix of the same buffer)", false, catch(|| superminhasher::get_jaccard_index_estimate(xf, yf).map(fhx).map_err(|e| e.to_string()))),
+                ];
+                for (name, wp, r) in rs.iter() { expect_err(ctx, name, *wp, r, &x.to_vec(), &y.to_vec()); }
+            }
+            // (2) the same slice twice -> exactly 1 ; (3) overlapping windows -> count/len
+            let w1 = &buf[..n]; let w2 = &buf[1..n + 1];
+            let (w1f, w2f) = (&buff[..n], &buff[1..n + 1]);
+            let want_ov = fhx(w1.iter().zip(w2.iter()).filter(|(p, q)| p == q).count() as f64 / n as f64);
+            for (name, got, want) in [
+                ("compute_probminhash_jaccard(x, x)", catch(|| fhx(jaccard::compute_probminhash_jaccard(w1, w1))), fhx(1.0)),
+                ("superminhasher::get_jaccard_index_estimate(x, x)", catch(|| superminhasher::get_jaccard_index_estimate(w1f, w1f).map(fhx).unwrap_or("ERR".into())), fhx(1.0)),
+                ("compute_probminhash_jaccard(overlapping windows)", catch(|| fhx(jaccard::compute_probminhash_jaccard(w1, w2))), want_ov.clone()),
+                ("jaccard::get_jaccard_index_estimate(overlapping windows)", catch(|| jaccard::get_jaccard_index_estimate(w1f, w2f).map(fhx).unwrap_or("ERR".into())), want_ov.clone()),
+                ("superminhasher::compute_superminhash_jaccard(overlapping windows)", catch(|| superminhasher::compute_superminhash_jaccard(w1f, w2f).map(fhx).unwrap_or("ERR".into())), want_ov.clone()),
+            ] {
+                if got.as_ref().ok() != Some(&want) {
+                    ctx.oracle_failure(serde_json::json!({"kind":"impl_violates_property","what":format!("{}: not count/len on aliased arguments", name),"n":n,"got":format!("{:?}",got),"want":want}));
+                }
+            }
+        }
         // methods on sketchers: SuperMinHash::get_jaccard_index_estimate(&self, other) / SuperMinHash2
         if c % 3 == 0 {
             // sketch sizes for which count/len is (mostly) not representable in f32, besides 1 and the dyadic 64
